@@ -99,7 +99,7 @@ func gen(rng *rand.Rand, maxOps int) Scenario {
 			}
 		case x < 55:
 			if online[m] {
-				sc.Ops = append(sc.Ops, Op{Kind: []string{"disconnect", "drop"}[rng.Intn(2)], M: m})
+				sc.Ops = append(sc.Ops, Op{Kind: []string{"disconnect", "drop", "leave"}[rng.Intn(3)], M: m})
 				online[m] = false
 			}
 		case x < 63:
@@ -298,7 +298,7 @@ func runW(sc *Scenario) (fs []finding, obs map[string]int, hist map[string]int, 
 	for oi, o := range sc.Ops {
 		m := o.M
 		switch o.Kind {
-		case "disconnect", "drop", "terminate", "reconnect", "expire", "expire_wait":
+		case "disconnect", "drop", "leave", "terminate", "reconnect", "expire", "expire_wait":
 			if !barrier(m) {
 				return
 			}
@@ -352,6 +352,52 @@ func runW(sc *Scenario) (fs []finding, obs map[string]int, hist map[string]int, 
 				}
 				endSession(m)
 			}
+		case "leave":
+			// DISCONNECT with Session Expiry Interval 0: the member ends its session, whatever CONNECT said, and with it
+			// every membership
+			from := b.Log.Len()
+			zero := uint32(0)
+			ms[m].c.Disconnect(0, &mqttx.Props{SessionExpiry: &zero})
+			ms[m].online = false
+			id := fmt.Sprintf("m%d", m)
+			if _, ok := b.Log.Wait(from, func(e broker.Event) bool { return e.Kind == "OnClosed" && e.Client == id }, step); !ok {
+				add("close.not_observed", "OnClosed never fired for "+id)
+				return
+			}
+			closedAt[m] = time.Now()
+			endSession(m)
+			obs["left_by_disconnect_with_expiry_0"]++
+		case "quick_resume":
+			// the member with the 1 s expiry comes back (Clean Start 0) right away. Within the second the session is
+			// certainly resumed; later than that (a loaded machine) both answers are right and the model follows CONNACK
+			sp, err := connect(m, false)
+			if err != nil {
+				add("reconnect", err.Error())
+				return
+			}
+			if !sp {
+				if time.Since(closedAt[m]) < 900*time.Millisecond {
+					add("quick_resume.session_present:got=false", fmt.Sprintf("op %d: m%d came back %v after its connection ended, session expiry 1 s, CONNACK says no session", oi, m, time.Since(closedAt[m])))
+					return
+				}
+				endSession(m)
+				if _, err := ms[m].c.Subscribe([]mqttx.Sub{{Filter: fmt.Sprintf("sent/m%d", m), QoS: 1}}, 0, step); err != nil {
+					add("reconnect.subscribe", err.Error())
+					return
+				}
+				ms[m].sentinelSub = true
+				obs["quick_resume_too_late"]++
+			} else {
+				obs["quick_resumes"]++
+			}
+			ms[m].exists = true
+		case "outlive":
+			// the resumed connection lasts beyond the moment the session would have expired had the member stayed away:
+			// that deadline died with the resume, the member is online and a member like any other
+			if d := time.Until(closedAt[m].Add(1700 * time.Millisecond)); d > 0 {
+				time.Sleep(d)
+			}
+			obs["connections_outliving_the_old_deadline"]++
 		case "terminate":
 			from := b.Log.Len()
 			id := fmt.Sprintf("m%d", m)
@@ -625,6 +671,40 @@ func runW(sc *Scenario) (fs []finding, obs map[string]int, hist map[string]int, 
 }
 
 // RunWire is part (b).
+// directedScenarios: (a) a member leaves with DISCONNECT / Session Expiry Interval 0 although it connected with a long
+// expiry: the group is served by who is left; (b) the member with the 1 s expiry drops, resumes at once and stays
+// connected beyond the old deadline: as sole member of its group it gets every message, with a second member half of them.
+func directedScenarios() []Scenario {
+	var out []Scenario
+	for _, mode := range []string{config.Overlap, config.OnlyOnce} {
+		pubs := func(n int) (ops []Op) {
+			for k := 0; k < n; k++ {
+				ops = append(ops, Op{Kind: "publish", Topic: "a/b", QoS: byte(1 + k%2)})
+			}
+			return
+		}
+		a := Scenario{Mode: mode, Persistent: []bool{true, true}}
+		a.Ops = append(a.Ops, Op{Kind: "join", M: 0, Group: "g1", Filter: "a/+", QoS: 1}, Op{Kind: "join", M: 1, Group: "g1", Filter: "a/+", QoS: 1})
+		a.Ops = append(a.Ops, pubs(4)...)
+		a.Ops = append(a.Ops, Op{Kind: "leave", M: 0})
+		a.Ops = append(a.Ops, pubs(8)...)
+		a.Ops = append(a.Ops, Op{Kind: "reconnect", M: 0, Clean: false})
+		a.Ops = append(a.Ops, pubs(4)...)
+		out = append(out, a)
+		for _, how := range []string{"drop", "disconnect"} {
+			b := Scenario{Mode: mode, Persistent: []bool{true, true}, Short: 1}
+			b.Ops = append(b.Ops, Op{Kind: "join", M: 0, Group: "g1", Filter: "a/+", QoS: 1}, Op{Kind: "join", M: 1, Group: "g2", Filter: "a/+", QoS: 1})
+			b.Ops = append(b.Ops, pubs(2)...)
+			b.Ops = append(b.Ops, Op{Kind: how, M: 0}, Op{Kind: "quick_resume", M: 0}, Op{Kind: "outlive", M: 0})
+			b.Ops = append(b.Ops, pubs(6)...)
+			b.Ops = append(b.Ops, Op{Kind: "join", M: 1, Group: "g1", Filter: "a/+", QoS: 2})
+			b.Ops = append(b.Ops, pubs(8)...)
+			out = append(out, b)
+		}
+	}
+	return out
+}
+
 func RunWire(r *monitor.Run) {
 	n := r.Pick(120, 1500)
 	rng := r.Rand("wire")
@@ -632,6 +712,8 @@ func RunWire(r *monitor.Run) {
 	for i := range scs {
 		scs[i] = gen(rng, r.Pick(40, 80))
 	}
+	scs = append(directedScenarios(), scs...)
+	n = len(scs)
 	r.Parallel(n, 16, func(i int) {
 		sc := &scs[i]
 		fs, obs, hist, err := runW(sc)
